@@ -23,6 +23,14 @@ Every pattern list is installed both with FilesParagraph.create() and by parsing
                       the kept Deb822 object, copies, other layouts of the Files field, strict=False, keyword arguments,
                       globs_to_re on its own) x every name; doc routes (DOC_ROUTES_NEW) likewise for find_files_paragraph; the
                       history explorer also runs with assignments going through the kept Deb822 object (route "data").
+  ladder              beyond the small scope: COUNT ladders - for every n in 1..40 and 63 64 65 100 127 128 129 255 256 257 999 1000
+                      1001 1025 2500 2501 5000 one pattern with n '?' in a row (seven arrangements), n '*' in a row (to 257), n copies
+                      of a regex-special literal (to 100), the brace expressions '?{n}' '*{n}' 'a{n}' 'a{1,n}' '?{n,}', a list of n
+                      patterns (four kinds), a document of n Files paragraphs (to 1001 at quick) - each with names on both sides of
+                      the count; specials - 60 small patterns made of regex-special literals (braces with digits, brackets, groups,
+                      anchors, alternation) alone / first / last in a list / inside a pattern x ~35 names; SIZE ladders - a pattern
+                      (to 16 Ki at quick) and a name (to 256 Ki) of exactly L characters with a newline / slash / multi-byte character
+                      at the block boundaries.  Signatures start with the family ("ladder/question-run/via-create/matches/...").
 """
 import io
 import warnings
@@ -46,7 +54,9 @@ RULE = ("Engine B: states = pattern lists generated (trie of patterns, then of l
         "document text reaches Copyright(...) is one more choice below (document, route 'parse'): states = documents, "
         "traces = (input kind, document, name) triples on find_files_paragraph, non-trivial as for doc.  listroutes: states = "
         "pattern lists, traces = (route, list, name) triples, each list installed once per route and asked every name; "
-        "non-trivial as for single")
+        "non-trivial as for single.  ladder: states = generated pattern lists / documents (one per family, n or L, arrangement), "
+        "transitions = the same (documents: paragraphs), traces = (route, list, name) / (route, document, name) triples, "
+        "non-trivial = n >= 4 and the verdict is a match or a format error (documents: several paragraphs match)")
 BUDGET = {"quick": 240, "thorough": 3000}
 
 HEADER = "Format: https://www.debian.org/doc/packaging-manuals/copyright-format/1.0/\n"
@@ -100,6 +110,7 @@ def bounds(tier):
                      "%d non-ASCII letters) in the lists %r x names %r, both routes"
                      % (len(sweep_chars()), len(SWEEP_NON_ASCII), [[p.replace("%", "<c>") for p in l] for l in SWEEP_LISTS],
                         [n.replace("%", "<c>") for n in SWEEP_NAMES]),
+            "beyond_the_small_scope": ladder_bounds(tier),
             "history_depth": HIST_DEPTH[tier], "history_lists": 5, "history_names": 4,
             "history_graph": "fixpoint over (current list, compiled list)",
             "document_history_depth": DOCHIST_DEPTH[tier],
@@ -144,6 +155,14 @@ def assumptions():
             "routes: globs_to_re(list / tuple / generator) is read with fullmatch, as matches() reads it (the regular "
             "expression text is pinned by the repository's tests and end-anchors only its last alternative); an invalid "
             "pattern must raise the format error from globs_to_re itself",
+            "ladders: the statement bounds neither the number of '?' or '*' in a row, nor the patterns per list, the Files "
+            "paragraphs per document, the length of a pattern or of a name; braces, digits, brackets, parentheses, '+', '^', '$', "
+            "'|', '.' are literals ('any other character matches itself').  Time is not part of the statement: the ladders avoid "
+            "inputs on which the unchanged library's '.*'-per-star translation backtracks for seconds (runs of '*' stop at 257 and "
+            "are asked names with at most two absorbable characters; '*?' repeated stops at 10; a long literal after a '*' is 7 "
+            "characters).  The ladder oracle is a bit-parallel version of the table matcher (mc.models.glob's matchers are "
+            "recursive / quadratic in Python), cross-checked against glob.match_dp on the small items; ladders are exhaustive "
+            "in n, with a fixed handful of arrangements and names per n",
             "routes left out: files_pattern() (the compiled expression is mechanism, not an answer the statement speaks of); "
             "Files fields containing comment lines or other deb822 layer features; pickling (Deb822 objects hold weak "
             "references)"]
@@ -423,6 +442,433 @@ def _listroutes(part, u):
     return part
 
 
+
+# ------------------------------------------------------------------------------------------------ beyond the small scope
+# COUNT ladders: one otherwise simple pattern list (and a handful of names chosen around the count) for every n in 1..40 and
+# the block-size neighbours, per kind of repeatable element: '?' in a row, '*' in a row, a regex-special literal in a row,
+# the digits of a brace expression after '?', patterns per list, Files paragraphs per document.  SIZE ladders: one pattern
+# / one name of exactly L characters.  specials: regex-special literals (braces with digits, brackets, groups, anchors,
+# alternation, quantifiers) inside otherwise small patterns.  Inputs are generated from the compact case
+# ({"part": "ladder", "fam": ..., "n": ..., "arr": ..., "route": ..., "q": index of the name}).
+# The oracle is a third matcher (bit-parallel table, below) because the recursive model cannot run 5000 tokens; it is
+# cross-checked against glob.match_dp on every ladder item of up to 130 tokens.
+
+LADDER_NS = list(range(1, 41)) + [63, 64, 65, 100, 127, 128, 129, 255, 256, 257, 999, 1000, 1001, 1025, 2500, 2501, 5000]
+STAR_NS = [n for n in LADDER_NS if n <= 257]        # runs of '*': the library's backtracking regex needs C(n+k, k) steps to say no
+SIZE_LS = [997, 998, 999, 1000, 4095, 4096, 4097, 16383, 16384, 16385, 65535, 65536, 65537, 131071, 131072, 131073,
+           262143, 262144, 262145]
+ALTERNATING_TOP = 10     # '*?' n times: the regex '.*.' n times explores C(2n, n) splits before it finds the all-empty one
+PATTERN_SIZE_TOP = {"quick": 16385, "thorough": 262145}      # the table oracle is quadratic in the length of a literal pattern
+DOC_PARAS_TOP = {"quick": 1001, "thorough": 5000}
+LADDER_ROUTES = ["create", "parse", "globs_to_re-list"]
+SPECIAL_CHARS = "{}[]()+^$|.-,<>=!:#&~"
+SPECIAL_PATTERNS = ["a{2}", "a{1,}", "a{,2}", "a{1,2}", "{2}", "?{2}", "*{2}", "?{1,}", "[a]", "[ab]", "[a-b]", "[^a]", "[]", "(x)", "(a|b)",
+                    "(?:a)", "(?i)a", "a+", "a+?", "a*+", "+", "^a", "a$", "^", "$", "a|b", "|", "a|", "|a", ".", "a.b", ".*", ".?", "\\\\d",
+                    "\\\\.", "\\*+", "\\?{2}", "a{2}*", "{", "}", "a{", "a}", "a{b}", "1{2}3", "a{0}", "a{00}", "a{10}", "x{2}{3}", "#", "a#b",
+                    "(?#c)a", "a{2,1}", "(", ")", "[", "]", "[[:alpha:]]", "\\\\Z", "a\\\\", "\\\\\\\\"]
+
+LADDER_FAMS = {
+    # family -> (arrangements, counts)
+    "ladder/question-run": (["alone", "leading", "trailing", "middle", "before-star", "after-star", "two-runs"], LADDER_NS),
+    "ladder/star-run": (["alone", "leading", "trailing", "middle", "alternating-with-question"], STAR_NS),
+    "ladder/special-run": (list(SPECIAL_CHARS), list(range(1, 41)) + [64, 100]),
+    "ladder/brace-count": (["question", "star", "literal", "range", "open-range"], list(range(1, 41)) + [64, 100, 128, 1000]),
+    "ladder/patterns-per-list": (["literals", "directories", "one-character", "questions"], LADDER_NS),
+}
+
+
+_TOKS = [None, None]
+
+
+def _match_bits(pattern, name):
+    """glob.tokens + one big integer as the table row: bit j set = 'the tokens so far can consume name[:j]'"""
+    if _TOKS[0] != pattern:
+        _TOKS[:] = [pattern, glob.tokens(pattern)]
+    toks = _TOKS[1]
+    n = len(name)
+    full = (1 << (n + 1)) - 1
+    masks = {}
+    for c in set(t[1] for t in toks if t[0] == glob.LIT):
+        if c in name:
+            masks[c] = int(name[::-1].translate(dict((ord(ch), "1" if ch == c else "0") for ch in set(name))), 2)
+    reach = 1
+    for t in toks:
+        if not reach:
+            return False
+        if t[0] == glob.STAR:
+            low = reach & -reach
+            reach = full & ~(low - 1)
+        elif t[0] == glob.ANY:
+            reach = (reach << 1) & full
+        else:
+            reach = ((reach & masks.get(t[1], 0)) << 1) & full
+    return bool(reach >> n & 1)
+
+
+def ladder_expected(files, name):
+    for p in files:
+        if "\\" in p and glob.validity(p):
+            return "ERR"
+    return any(_match_bits(p, name) for p in files)
+
+
+def ladder_items(fam, n, arr, a, b):
+    """-> (pattern list, names) of one ladder item; the names sit on both sides of the count"""
+    x = "x" if "x" not in (a, b) else "y"
+    if fam == "ladder/question-run":
+        q = "?" * n
+        pat = {"alone": q, "leading": q + b, "trailing": a + q, "middle": a + q + b, "before-star": q + "*", "after-star": "*" + q,
+               "two-runs": q + a + q}[arr]
+        pre = a if arr in ("trailing", "middle") else ""
+        post = b if arr in ("leading", "middle") else ""
+        names = [pre + x * k + post for k in (n - 1, n, n + 1) if k >= 0]
+        names += [pre + x * (n // 2) + c + x * (n - n // 2 - 1) + post for c in ("\n", "/", "?")]
+        if arr == "two-runs":
+            names = [x * n + a + x * n, x * (n - 1) + a + x * n, x * n + a + x * (n + 1), x * (2 * n + 1), a * (2 * n + 1), a * (2 * n)]
+        if arr in ("before-star", "after-star"):
+            names += [x * (2 * n), ""]
+        return [pat], names
+    if fam == "ladder/star-run":
+        st = "*" * n
+        pat = {"alone": st, "leading": st + b, "trailing": a + st, "middle": a + st + b, "alternating-with-question": "*?" * n}[arr]
+        if arr == "alternating-with-question":
+            return [pat], [x * n, x * (n + 1), x * (n - 1), x * (n // 2) + "\n" + x * (n - n // 2)]
+        # names a run of stars can say no to without many steps (the regex backtracks over every split of what the run
+        # may absorb): at most two absorbable characters up to n = 65, one above
+        names = ["", a, b, a + b, b + a, a + "/" + b, a + "\n" + b, x]
+        if n <= 65:
+            names += [a + b + a, a + x + x + b, b + b, a + a]
+        return [pat], names
+    if fam == "ladder/special-run":
+        c = arr
+        return [c * n], [c * n, c * (n - 1), c * (n + 1), "", a * n, c]
+    if fam == "ladder/brace-count":
+        d = str(n)
+        pat = {"question": "?{%s}" % d, "star": "*{%s}" % d, "literal": a + "{%s}" % d, "range": a + "{1,%s}" % d, "open-range": "?{%s,}" % d}[arr]
+        tail = pat[1:]
+        names = [a + tail, x + tail, x * n, a * n, a * (n + 1), a, "", tail, x * min(n, 50) + tail]
+        return [pat], names
+    if fam == "ladder/patterns-per-list":
+        if arr == "literals":
+            files = ["p%d" % i for i in range(n)]
+            names = ["p0", "p%d" % (n - 1), "p%d" % (n // 2), "p%d" % n, "p%dx" % (n - 1), "p0x", "p%dx" % (n // 2), "p", "xp0",
+                     "p0\n", "p0 p1", "p%d" % (n - 2 if n > 1 else 7)]
+        elif arr == "directories":
+            files = ["d%d/*" % i for i in range(n)]
+            names = ["d0/f", "d%d/f" % (n - 1), "d%d/f/g\nh" % (n // 2), "d%d/f" % n, "d%d" % (n - 1), "xd0/f", "d0/", "d/"]
+        elif arr == "one-character":
+            al = "abcdefghijklmnopqrstuvwxyz0123456789"
+            files = [al[i % 36] for i in range(n)]
+            names = ["a", al[(n - 1) % 36], al[n % 36] if n < 36 else "_", "ab", "", "aa", al[(n - 1) % 36] + "a"]
+        else:
+            files = ["?" * (i + 1) + b for i in range(min(n, 200))] + ["q%d" % i for i in range(200, n)]
+            names = [x + b, x * min(n, 200) + b, x * (min(n, 200) + 1) + b, x * (min(n, 200) // 2 + 1) + b, b, x * min(n, 200), "q%d" % (n - 1)]
+        return files, names
+    if fam == "specials":
+        sp = SPECIAL_PATTERNS[n]
+        files = {"alone": [sp], "first": [sp, b], "last": [b, sp], "inside": [a + sp + b]}[arr]
+        lit = sp.replace("\\\\", "\\")
+        base = [lit, "a", "aa", "", "b", "x", "ab", "a" * 10, "a{2}", "a{1,}", "a2", "{2}", "xx", "xy{2}", "a|b", ".", "a.b", "axb", "d", "\\d", "\\",
+                "\\\\", "a\\", "*+", "**", "?{2}", "??", lit + lit, lit[:-1], lit[1:], "A", "1223", "123", "a#b", "a\n", "\na"]
+        names = []
+        for nm in base + ([a + nm + b for nm in base] if arr == "inside" else []):
+            if nm not in names:
+                names.append(nm)
+        return files, names
+    if fam == "size/pattern":
+        L = n
+        if arr == "literal":
+            pat = a * (L - 1) + b
+            names = [pat, pat[:-1], pat + b, a * L, pat[:L // 2] + x + pat[L // 2 + 1:]]
+        elif arr == "literal-with-marks":
+            buf = [a] * L
+            for m in _size_marks(L):
+                buf[m] = b
+            pat = "".join(buf)
+            names = [pat, pat[:-1], a * L] + [pat[:m] + a + pat[m + 1:] for m in _size_marks(L)[:4]] + [pat[:m - 1] + b + pat[m:] for m in _size_marks(L)[-2:]]
+        elif arr == "questions":
+            pat = "?" * L
+            names = [x * L, x * (L - 1), x * (L + 1), x * (L // 2) + "\n" + x * (L - L // 2 - 1)]
+        else:
+            # a short tail: the regex retries the tail at every position the star may end at
+            pat = a * (L - 8) + "*" + b * 7
+            names = [a * (L - 8) + b * 7, a * (L - 8) + x + "\n" + x + b * 7, a * (L - 8) + b * 6, a * (L - 9) + b * 7, a * (L - 8) + x * 5000 + b * 7]
+        return [pat], names
+    if fam == "size/name":
+        L = n
+        body = [x] * L
+        if arr == "newline-at-marks":
+            for m in _size_marks(L):
+                body[m] = "\n"
+        elif arr == "slash-at-marks":
+            for m in _size_marks(L):
+                body[m] = "/"
+        elif arr == "multibyte-at-marks":
+            for m in _size_marks(L):
+                body[m] = "字"
+        nm = a + "".join(body[1:-1]) + b
+        assert len(nm) == L
+        files_list = [["*"], [a + "*"], ["*" + b], [a + "*" + b], ["?*"], [a + "*/*" + b], ["*\\*"], [b + "*", "*" + a], [a + "?" + "*" + "?" + b], [b, a]]
+        return files_list, [nm, nm[:-1], nm[1:], nm + a]
+    raise AssertionError(fam)
+
+
+def _size_marks(L):
+    m = set()
+    for blk in (16384, 65536):
+        for k in range(blk, L, blk):
+            m.update((k - 1, k))
+    m.update((L - 2, L // 2))
+    return sorted(i for i in m if 1 <= i <= L - 2)
+
+
+def ladder_bounds(tier):
+    return {"counts": "n = 1..40, 63, 64, 65, 100, 127, 128, 129, 255, 256, 257, 999, 1000, 1001, 1025, 2500, 2501, 5000 (every n); runs of "
+                      "'*' up to 257 only (the library translates each '*' to '.*' and its backtracking matcher needs C(n+k, k) steps to "
+                      "refuse a name with k absorbable characters: 1025 stars against 'aba' take 2 s, 5000 take minutes - speed is not "
+                      "part of the statement); Files paragraphs per document up to %d" % DOC_PARAS_TOP[tier],
+            "count_families": {f: {"arrangements": v[0], "n": "%d counts, largest %d" % (len(v[1]), v[1][-1])} for f, v in sorted(LADDER_FAMS.items())},
+            "count_meaning": {"ladder/question-run": "a pattern with n '?' in a row (alone, before / after / between literals, next to a '*', two "
+                                                     "runs) x names of n-1, n, n+1 characters and names with a newline / slash / '?' inside the run",
+                              "ladder/star-run": "a pattern with n '*' in a row (and '*?' n times, n <= %d) x short names" % ALTERNATING_TOP,
+                              "ladder/special-run": "a pattern made of n copies of one regex-special literal (%s) x names of n-1, n, n+1 copies" % SPECIAL_CHARS,
+                              "ladder/brace-count": "patterns '?{n}', '*{n}', 'a{n}', 'a{1,n}', '?{n,}' (braces and digits are literals) x the literal "
+                                                    "name and the names a regex quantifier would accept",
+                              "ladder/patterns-per-list": "lists of n patterns (distinct literals p0..p<n-1>, directory globs, single characters, "
+                                                          "'?'-runs of growing length) x names matched by the first / middle / last / no pattern and "
+                                                          "names that extend a pattern by one character",
+                              "ladder/files-paragraphs": "documents of n Files paragraphs (every paragraph matches; only the first / last; "
+                                                         "every third, with License paragraphs in between) x names, for "
+                                                         "find_files_paragraph, parsed and built through the API"},
+            "specials": {"patterns": SPECIAL_PATTERNS, "arrangements": ["alone", "first", "last", "inside"],
+                         "names": "the pattern text itself and ~35 names a regular expression with that text would accept"},
+            "sizes": {"L": SIZE_LS, "size/pattern": "one pattern of L characters (literal with another letter at every block boundary; "
+                                                    "L '?'; a literal of L-8 characters, one '*', a literal of 7), L <= %d in this tier" % PATTERN_SIZE_TOP[tier],
+                      "size/name": "one name of L characters (plain; newline / slash / three-byte character exactly before and at every "
+                                   "multiple of 16384 and 65536, in the middle and at L-2) x 10 small pattern lists; also the name shortened "
+                                   "at either end and extended"},
+            "routes": "%s for the count ladders and the specials; size/name: create; size/pattern: create, parse; "
+                      "documents: %s" % (LADDER_ROUTES, DOC_LADDER_ROUTES),
+            "oracle": "bit-parallel table matcher in this module, cross-checked against mc.models.glob.match_dp on every item of <= 130 "
+                      "pattern tokens and <= 300 name characters"}
+
+
+def ladder_units(tier):
+    out = []
+    for fam in sorted(LADDER_FAMS):
+        arrs, ns = LADDER_FAMS[fam]
+        for arr in arrs:
+            out.append({"part": "ladder", "fam": fam, "arr": arr,
+                        "ns": [n for n in ns if n <= ALTERNATING_TOP] if arr == "alternating-with-question" else list(ns)})
+    for arr in ("alone", "first", "last", "inside"):
+        out.append({"part": "ladder", "fam": "specials", "arr": arr, "ns": list(range(len(SPECIAL_PATTERNS)))})
+    for arr in ("literal-with-marks", "questions", "around-a-star"):
+        out.append({"part": "ladder", "fam": "size/pattern", "arr": arr, "ns": [L for L in SIZE_LS if L <= PATTERN_SIZE_TOP[tier]]})
+    for arr in ("plain", "newline-at-marks", "slash-at-marks", "multibyte-at-marks"):
+        out.append({"part": "ladder", "fam": "size/name", "arr": arr, "ns": list(SIZE_LS)})
+    for arr in DOC_LADDER_ARRS:
+        out.append({"part": "ladder", "fam": "ladder/files-paragraphs", "arr": arr, "ns": [n for n in LADDER_NS if n <= DOC_PARAS_TOP[tier]]})
+    return out
+
+
+def ladder_routes(fam, n, tier):
+    """how the list is installed: all three ways for the count ladders; a long NAME is asked of a created paragraph only (the
+    patterns are small); a long PATTERN goes through create and through a parsed Files field"""
+    if fam == "size/name":
+        return ["create"]
+    if fam == "size/pattern":
+        return ["create", "parse"]
+    return LADDER_ROUTES
+
+
+def _ladder_sig(files, name, exp, got):
+    if isinstance(got, tuple):
+        return "matches/%s/%s" % (got[0], got[1] if got[0] == "raise" else "not-bool")
+    if exp == "ERR":
+        return "matches/accepts-invalid"
+    if got == "ERR":
+        return "matches/rejects-valid-pattern"
+    if exp is True:
+        return "matches/false-negative/" + ("newline-in-name" if "\n" in name else "slash-in-name" if "/" in name else "other")
+    return "matches/false-positive"
+
+
+def _ladder_build(files, route):
+    if route in ROUTES:
+        return build(files, route)
+    return build_route(files, route)
+
+
+def run_ladder_case(case):
+    """one (family, n, arrangement, route, name index) -> violations"""
+    fam = case["fam"]
+    if fam == "ladder/files-paragraphs":
+        return run_docladder_case(case)
+    items = ladder_items(fam, case["n"], case["arr"], case["a"], case["b"])
+    if fam == "size/name":
+        files, names = items[0][case["l"]], items[1]
+    else:
+        files, names = items
+    res = _ladder_build(files, case["route"])
+    pre = "%s/via-%s/" % (fam, case["route"])
+    j = judge_build(files, res)
+    if j:
+        return [(pre + j[0],) + tuple(j[1:])]
+    if res[0] != "ok":
+        return []
+    for nm in names[:case["q"]] if case.get("replay_earlier") else []:
+        observe(res[1], nm)
+    name = names[case["q"]]
+    exp, got = ladder_expected(files, name), observe(res[1], name)
+    if got == exp:
+        return []
+    return [(pre + _ladder_sig(files, name, exp, got), "Files %s matches(%s) -> %s" % (core._short(" ".join(files), 120), core._short(repr(name), 120), _show(exp)),
+             _show(got) if not isinstance(got, tuple) else repr(got))]
+
+
+def _ladder_unit(part, u, seed, tier):
+    fam, arr = u["fam"], u["arr"]
+    if fam == "ladder/files-paragraphs":
+        return _docladder_unit(part, u, seed)
+    a, b, _pa, _na = alphabet(seed)
+    size = fam.startswith("size/")
+    first_case = None
+    for n in u["ns"]:
+        items = ladder_items(fam, n, arr, a, b)
+        lists = [(None, items[0])] if fam != "size/name" else list(enumerate(items[0]))
+        names = items[1]
+        for li, files in lists:
+            part.states += 1
+            part.transitions += 1
+            exps = [ladder_expected(files, nm) for nm in names]
+            if sum(len(glob.tokens(p)) for p in files if not glob.validity(p)) <= 130 and exps[0] != "ERR":
+                for nm, e in zip(names, exps):
+                    if len(nm) <= 300 and any(glob.match_dp(p, nm) for p in files) != e:
+                        raise AssertionError("model self-check: bit table and glob.match_dp disagree on %r %r" % (files, nm))
+                    part.extra["model_selfcheck_pairs"] += 1
+            for route in ladder_routes(fam, n, tier):
+                base = {"part": "ladder", "fam": fam, "n": n, "arr": arr, "route": route, "a": a, "b": b}
+                if li is not None:
+                    base["l"] = li
+                first_case = first_case or dict(base, q=0)
+                res = _ladder_build(files, route)
+                part.evaluations += 1
+                j = judge_build(files, res)
+                if j:
+                    part.violation("%s/via-%s/%s" % (fam, route, j[0]), dict(base, q=0), j[1], j[2], rank=n)
+                    continue
+                if res[0] != "ok":
+                    part.outcomes["%s:rejected-when-installed" % fam] += 1
+                    continue
+                for q, nm in enumerate(names):
+                    got = observe(res[1], nm)
+                    part.traces += 1
+                    part.evaluations += 1
+                    if got != exps[q]:
+                        case = dict(base, q=q)
+                        bad = run_ladder_case(case)
+                        if not bad:
+                            case["replay_earlier"] = True
+                            bad = [("history-dependent/" + b0[0],) + tuple(b0[1:]) for b0 in run_ladder_case(case)]
+                            if not bad:
+                                raise AssertionError("explorer and run_ladder_case disagree on %r" % (case,))
+                        for sig, e, o in bad:
+                            part.violation(sig, case, e, o, rank=n)
+                    if route == "create":
+                        if exps[q] is not False and n >= 4:
+                            part.nontrivial += 1
+                        part.outcomes["%s %s %s: %s" % (fam, arr if fam != "ladder/special-run" else "char", "L" if size else _n_class(n),
+                                                        "error" if exps[q] == "ERR" else "match" if exps[q] else "nomatch")] += 1
+            part.extra["lists of a size ladder" if size else "lists of the special-literal set" if fam == "specials" else "lists of a count ladder"] += 1
+        part.max_depth = max(part.max_depth, 3 if size or fam == "specials" else n)
+    part.sample(first_case)
+    return part
+
+
+def _n_class(n):
+    return "n<=3" if n <= 3 else "n<=40" if n <= 40 else "n<=257" if n <= 257 else "n<=1025" if n <= 1025 else "n>=2500"
+
+
+# ---- documents with many Files paragraphs
+
+DOC_LADDER_ARRS = ["all-match", "only-first", "only-last", "every-third-with-licences"]
+DOC_LADDER_ROUTES = ["parse", "api"]
+
+
+def docladder_layout(n, arr, a, b):
+    """-> (layout, names)"""
+    hit = a + "*"
+    layout = []
+    for i in range(n):
+        if arr == "all-match":
+            fl = [hit, "p%d" % i]
+        elif arr == "only-first":
+            fl = [hit] if i == 0 else ["p%d" % i]
+        elif arr == "only-middle":
+            fl = [hit] if i == n // 2 else ["p%d" % i]
+        elif arr == "only-last":
+            fl = [hit] if i == n - 1 else ["p%d" % i]
+        elif arr == "first-and-last":
+            fl = [hit] if i in (0, n - 1) else ["p%d" % i]
+        elif arr == "every-third-with-licences":
+            fl = [hit, "q%d" % i] if i % 3 == 0 else ["p%d" % i, "d%d/*" % i]
+            if i % 2:
+                layout.append(("L",))
+        else:
+            fl = ["p%d" % i]
+        layout.append(("F", fl))
+    names = [a + "z", "p0", "p%d" % (n - 1), "p%d" % (n // 2), "p%d" % n, "d%d/x" % (n - 1), "p%dx" % (n - 1)]
+    return layout, names
+
+
+def run_docladder_case(case):
+    layout, names = docladder_layout(case["n"], case["arr"], case["a"], case["b"])
+    inner = {"part": "doc", "route": case["route"], "layout": [list(p) for p in layout], "name": names[case["q"]]}
+    return [("ladder/files-paragraphs/" + b0[0],) + tuple(core._short(x, 300) for x in b0[1:]) for b0 in run_doc_case(inner)]
+
+
+def _docladder_unit(part, u, seed):
+    a, b, _pa, _na = alphabet(seed)
+    arr = u["arr"]
+    case = None
+    for n in u["ns"]:
+        layout, names = docladder_layout(n, arr, a, b)
+        file_lists = [p[1] for p in layout if p[0] == "F"]
+        part.states += 1
+        part.transitions += len(layout)
+        for route in DOC_LADDER_ROUTES:
+            res = build_doc(layout, route)
+            part.evaluations += 1
+            case = {"part": "ladder", "fam": "ladder/files-paragraphs", "n": n, "arr": arr, "route": route, "q": 0, "a": a, "b": b}
+            j = judge_doc_build(file_lists, res)
+            if j or res[0] != "ok":
+                j = j or ("doc/build-fails", "document accepted", repr(res[1]))
+                part.violation("ladder/files-paragraphs/" + _ksig(route, j[0]), case, core._short(j[1], 300), core._short(j[2], 300), rank=n)
+                continue
+            for q, nm in enumerate(names):
+                got = observe_find(res[1], res[2], nm)
+                part.traces += 1
+                part.evaluations += 1
+                verdicts = [ladder_expected(fl, nm) for fl in file_lists]
+                ok = find_answers(verdicts)
+                if got not in ok:
+                    c2 = dict(case, q=q)
+                    bad = run_docladder_case(c2)
+                    if not bad:
+                        bad = [("ladder/files-paragraphs/" + _ksig(route, "find/history-dependent"), "paragraph #%s" % (ok[0],), _showidx(got))]
+                    for sig, e, o in bad:
+                        part.violation(sig, c2, e, o, rank=n)
+                if route == DOC_LADDER_ROUTES[0]:
+                    hits = sum(1 for v in verdicts if v is True)
+                    if hits > 1 and n >= 4:
+                        part.nontrivial += 1
+                    part.outcomes["ladder/files-paragraphs %s %s: %s" % (arr, _n_class(n), "none" if not hits else "unique-match" if hits == 1 else "several-matches")] += 1
+        part.extra["documents of a count ladder"] += 1
+        part.max_depth = max(part.max_depth, n)
+    part.sample(case)
+    return part
+
+
 # ------------------------------------------------------------------------------------------------ units
 
 def units(tier, seed):
@@ -502,11 +948,14 @@ def units(tier, seed):
     for i in range(len(mpool)):
         out.append(dict(base, na=mna, n=2, part="doc", pool=mpool, k=2, fixed=[i], masks=[0, 2],
                         routes=["parse:" + k for k in MIXED_KINDS], kinds=True))
+    out += ladder_units(tier)
     return out
 
 
 def unit_cost(u, tier):
     part = u["part"]
+    if part == "ladder":
+        return 3000000 if u["fam"] in ("ladder/files-paragraphs", "size/pattern") else 800000
     if part == "single":
         return (len(u["pa"]) ** (u["length"] - len(u["prefix"]))) * (7 ** u["n"]) * 3
     if part == "pairs":
@@ -797,6 +1246,8 @@ def run_unit(u, tier, seed):
         return part
     if kind == "sweep":
         return _sweep(part, u)
+    if kind == "ladder":
+        return _ladder_unit(part, u, seed, tier)
     if kind == "listroutes":
         return _listroutes(part, u)
     if kind == "hist-graph":
@@ -1369,6 +1820,8 @@ def _docs(part, u):
 
 def replay(case):
     part = case.get("part")
+    if part == "ladder":
+        return run_ladder_case(case)
     if part == "list":
         return run_list_case(case)
     if part == "listroute":
